@@ -10,7 +10,7 @@
 //	    and index, every prefix of length 0..5 (and non-matching variants) of every id, for bugs and
 //	    identities;
 //	(c) real bugs and identities whose ids were mined (deterministic nonces) to share 1..3 leading
-//	    hex characters, with 1..3 comments whose operation ids were mined the same way: every prefix
+//	    hex characters, with 1..5 comments whose operation ids were mined the same way (across bugs and inside one bug): every prefix
 //	    length 0..64 of every id through ResolvePrefix/ResolveExcerptPrefix and of every comment's
 //	    combined id (and crossed / perturbed variants) through ResolveComment.
 package c13
@@ -176,8 +176,8 @@ func Main(args []string) {
 		Assumptions: []string{
 			"(a) CombineIds/SeparateIds depend on character positions only, so ids whose characters encode their position decide them for all id values (hex and degenerate ids are run as well)",
 			"(b) engineered excerpts are planted through the cache file (gob of the exported excerpt types) and the index of a real repository; the cache is checked to have loaded exactly the planted population without rebuilding; ids are {a,b}^4 padded with '0' to 64 characters, at most 4 per population (thorough: 5)",
-			"(c) reduced space: real populations of 6 bugs (three sharing 3 leading hex characters, one sharing 2, one sharing 1, one sharing none) with 1..3 comments and 3 identities (sharing 2 and 1 leading characters), found by mining with the deterministic nonce seam; thorough runs more such populations",
-			"for a prefix matched by several comments the statement does not fix the outcome: any error is accepted, a success only if the returned comment has the prefix",
+			"(c) reduced space: real populations of 6 bugs (three sharing 3 leading hex characters, one sharing 2, one sharing 1, one sharing none) with 1..5 comments (one bug holds comments whose operation ids share exactly 1, 2 and 3 leading characters) and 3 identities (sharing 2 and 1 leading characters), found by mining with the deterministic nonce seam; thorough runs more such populations",
+			"a prefix matched by several comments (of one bug or of several) does not identify a single comment: any error is accepted, a successful resolution is a violation",
 			"the error type for an unknown comment is not fixed by the statement (any error accepted)",
 		},
 		WallS: time.Since(start).Seconds(), Violations: rep.Viol, Known: rep.KnownSeen()}
